@@ -505,4 +505,49 @@ example (C : String → Prop) (v : String) (hv : E.get? "sys_platform" = some v)
     exact hq
   · exact mkSingle_string_eqG "sys_platform" "a\"b" (by decide) hq.1.1 hq.1.2
 
+/-- **Marker text with quote values on reversed-operand leaves too, no hypothesis**: as `print_parse_quotes`, with
+`"v" in name` / `"v" not in name` leaves whose literal may hold a double quote (no white space, `|`, `,`, writable).
+The constructor writes the constraint string between double quotes whatever the literal (`f'"{value}" {op}'`) and
+reads it with the backtracking pattern `STR_CMP_CONSTRAINT`; an inner `"` is tried as the closing quote first, but the
+rest of the text after it still holds the real closing quote, so for a literal without blanks it is not
+`\\s*(not\\sin|in)$` (`strCmpTail_inner`, marker side; `matchOpTail_inner`, generic-constraint side) and the scan
+goes on to the real one (`matchStrCmp_revQ`, `gparseWith_revQ`, `mkSingle_revQ`). -/
+theorem print_parse_quotes_reversed {C : String → Prop}
+    (hC : ∀ u v, C u → C v → Generic.strIn u v = true ∨ Generic.strIn v u = true)
+    {ex : List String} (hX : E.extras = some ex) {X Y Z : Nat} (hE : EnvPy E X Y Z) :
+    (∀ {m : M} {t : Syn}, M.Good (FullQR C E) m → M.toSyn m = some t →
+      ∃ s, M.toStr m = .ok s ∧ parseText s = .ok t ∧
+        ∃ m', compactRaw t = .ok m' ∧ M.Good (FullQR C E) m' ∧ M.validate E m' = .ok (M.sem (leafEval E) m)) ∧
+    (∀ {a b r : M} {isUnion : Bool}, M.Good (FullQR C E) a → M.Good (FullQR C E) b →
+      (if isUnion then mUnion fuel stk a b else mIntersect fuel stk a b) = .ok r →
+      M.Good (FullQR C E) r ∧ M.sem (leafEval E) r =
+        (if isUnion then (M.sem (leafEval E) a || M.sem (leafEval E) b)
+          else (M.sem (leafEval E) a && M.sem (leafEval E) b))) ∧
+    (∀ l, FullQQ C E l → FullQR C E l) := by
+  have S := leafSpec_fullQR hC hX hE
+  refine ⟨fun {m t} hg h => ?_, fun {a b r isUnion} ha hb hr => ?_, fun l hl => fullQQ_fullQR hl⟩
+  · obtain ⟨s, h1, h2, m', h3, h4, h5⟩ :=
+      M.parseText_toStrQ S (printOK_fullQR hX) (fun l hl => lexableQ_fullQR l hl) hg h
+    refine ⟨s, h1, h2, m', h3, h4, ?_⟩
+    rw [M.validate_eq_sem E m' (M.good_mono (fun l hl => fullQR_evaluable hX hE hl) m' h4)]
+    exact congrArg _ h5
+  · cases isUnion
+    · simp only [Bool.false_eq_true, if_false] at hr ⊢
+      exact mIntersect_sound S ha hb hr
+    · simp only [if_true] at hr ⊢
+      exact mUnion_sound S ha hb hr
+
+/-- `'a"b' in sys_platform`: the constructor reads `"a"b" in` back to the literal `a"b` -/
+example : mkSingle "sys_platform" (itemConstraintString "in" "a\"b" true) true =
+      .ok ⟨"sys_platform", "in", "a\"b", true, .gen (.s (.atom ⟨"a\"b", .in_, false⟩))⟩ ∧
+    itemConstraintString "in" "a\"b" true = "\"a\"b\" in" ∧
+    leafText "sys_platform" "in" "a\"b" true = "'a\"b' in sys_platform" := by
+  refine ⟨?_, by decide, by decide⟩
+  have hg : GTok "a\"b" := by
+    refine ⟨by decide, ?_⟩
+    intro c hc
+    simp at hc
+    rcases hc with rfl | rfl | rfl <;> (unfold gPlain; decide)
+  exact mkSingle_revQ "sys_platform" "a\"b" (by decide) hg "in" .in_ (by decide)
+
 end Poetry.C13
